@@ -219,6 +219,7 @@ type dstruct struct {
 }
 
 type dpkg struct {
+	errVar bool
 	structs       []dstruct
 	intEq10       bool
 	intOrdRev     bool
@@ -284,6 +285,9 @@ func drawDPkg(t *rapid.T, excl map[string]bool, focus string) dpkg {
 	p.intEq10 = rapid.IntRange(0, 3).Draw(t, "overrideEqInt") == 0
 	p.intOrdRev = rapid.IntRange(0, 3).Draw(t, "overrideOrdInt") == 0
 	p.intProd = rapid.Bool().Draw(t, "monoidIntProduct")
+	// an ordinary package-level sentinel `var ErrX = errors.New(..)`: gombok scans the package's variables
+	// and functions for typeclass instances, whatever their type
+	p.errVar = rapid.Bool().Draw(t, "pkgLevelErrorVar")
 	n := rapid.IntRange(1, 3).Draw(t, "nstructs")
 	// recursive=true: only the last struct carries directives, nested structs get their instances implicitly
 	p.recFlag = n >= 2 && rapid.IntRange(0, 2).Draw(t, "recursiveFlag") == 0
@@ -532,6 +536,7 @@ func (p dpkg) source() string {
 	sb.WriteString(`package pa
 
 import (
+	"errors"
 	"time"
 
 	"github.com/csgura/fp"
@@ -544,6 +549,7 @@ import (
 	"github.com/csgura/fp/show"
 )
 
+var _ = errors.New
 var _ = time.Second
 var _ fp.Unit
 var _ = option.None[int]
@@ -557,6 +563,9 @@ var _ = show.String
 func ptrOf[T any](v T) *T { return &v }
 
 `)
+	if p.errVar {
+		sb.WriteString("// ErrNotFound is an ordinary sentinel error of the package\nvar ErrNotFound = errors.New(\"not found\")\n\nfunc lastError() error { return ErrNotFound }\n\n")
+	}
 	uses := map[string]bool{}
 	for _, s := range p.structs {
 		for _, c := range s.classes {
@@ -714,7 +723,7 @@ func mustInst(name string, fn any) (any, int) {
 
 func (p dpkg) describe() string {
 	var sb strings.Builder
-	fmt.Fprintf(&sb, "overrides(EqInt mod10=%v, OrdInt reversed=%v, MonoidInt product=%v) recursive=true on last struct only: %v\n", p.intEq10, p.intOrdRev, p.intProd, p.recFlag)
+	fmt.Fprintf(&sb, "overrides(EqInt mod10=%v, OrdInt reversed=%v, MonoidInt product=%v) recursive=true on last struct only: %v; package-level error var: %v\n", p.intEq10, p.intOrdRev, p.intProd, p.recFlag, p.errVar)
 	for _, s := range p.structs {
 		fmt.Fprintf(&sb, "%s%s plain=%v derive%v {", s.name, s.declParams(), s.plain, s.classes)
 		for _, f := range s.fields {
